@@ -7,6 +7,7 @@ CONSTANTS
   WCounts <- MC_WbufCounts
   SOffs <- MC_None
   VBufs = {"full", "line"}
+  MFmts <- MC_None
   VSizes <- MC_WbufSizes
   Extra = {"flush", "peek"}
   Naive = FALSE
